@@ -1,6 +1,12 @@
 """Worlds for the Clean family (C07-C10): a directory prepared with fsput (entries of the tests
 that will run, stale entries at any position, stale files, decoys), one process that runs the
-tests `count` times, then Clean; plus the oracles, computed from the world description."""
+tests `count` times, then Clean; plus the oracles, computed from the world description.
+
+Round-3 strengthening: directory names with glob metacharacters / blanks / `%` / non-ASCII (ODD_DIRS,
+plus the directory a pattern-reading of the name would match), Filename options containing `.snap`
+(SNAPPY_NAMES), files ENDING in an unterminated entry or junk (spec['ends'], END_SHAPES; several such
+files per run, a later file rewritten), files larger than the scanner's 4 KiB window with multi-line
+bodies that are really rewritten (big_calls, big_specs)."""
 import re, posixpath
 import core
 from core import World, parse_fs, Line, hx
@@ -51,6 +57,86 @@ def nat_total(ids):
     return all(nat_less(x, y) != nat_less(y, x) for i, x in enumerate(ids) for y in ids[i + 1:])
 
 
+# Directory names as users (and their tools) really have them: glob metacharacters (`[`, `]`, `*`, `?`,
+# `\`), blanks, tabs, `%`, `+`, `#`, `~`, `$`, quotes, non-ASCII - anywhere in the path, not only in the
+# last element.  Clean must list a directory by its NAME, whatever characters that name is made of.
+ODD_DIRS = ['sn[a]ps', '[work]/svc/__snapshots__', 'snaps[', 'sn]aps', 'sn*ps', 'snaps*', 'sn?ps', '?', 'back\\slash/snaps',
+            'tail\\', 'a b/__snapshots__', ' lead', '100%/snaps', '%d', 'sn%20aps', 'caf\u00e9/\u00fcn\u00efcode', '\u65e5\u672c',
+            'sn{a,b}ps', 'snaps!(x)', 'a+b', '#hash', '~tilde', "quo'te", 'dq"uote', '$HOME', 'x;y', '-dash', 'dot.', '..dots',
+            'tab\there', '[!a]', '[a-z]naps', '\\[x\\]', '**', 'a*/b?/c[d]']
+
+
+def glob_sibling(d):
+    """a DIFFERENT directory name that the path `d`, misread as a glob pattern, matches (None if there
+    is none): a listing that interprets the name instead of using it would visit this one too"""
+    out, i, changed = '', 0, False
+    while i < len(d):
+        c = d[i]
+        if c == '*':
+            out += 'xx'
+            changed = True
+        elif c == '?':
+            out += 'x'
+            changed = True
+        elif c == '\\' and i + 1 < len(d) and d[i + 1] != '/':
+            out += d[i + 1]
+            i += 1
+            changed = True
+        elif c == '[':
+            j = d.find(']', i + 2)
+            if j < 0 or '/' in d[i:j]:
+                return None         # a bad pattern matches nothing
+            cls = d[i + 1:j]
+            if cls[0] in '!^' or '-' in cls or '\\' in cls:
+                return None
+            out += cls[0]
+            i = j
+            changed = True
+        else:
+            out += c
+        i += 1
+    return out if changed and out != d else None
+
+
+# File names (the Filename option) that contain `.snap` themselves: the snapshot file of
+# `api.snapshot_test.go` is `api.snapshot_test.snap`
+SNAPPY_NAMES = ['api.snapshot_test', 'foo.snap_test', 'x.snap', 'my.snapper_case', '.snap_hidden_test']
+
+# What a file can END with after an interrupted write, a merge conflict or a hand edit: an entry
+# without its terminator (with and without a final newline), a header alone, a padded or longer
+# terminator, stray terminators, blank lines.  (kind, bytes with the placeholder ID)
+END_SHAPES = [b'\n[ID]\nleft over', b'\n[ID]\nleft over\n', b'\n[ID]\nfirst line\nsecond line\n\n', b'\n[ID]', b'\n[ID]\n',
+              b'\n[ID]\nleft over\n--- \n', b'\n[ID]\nleft over\n----\n', b'\n[ID]\nleft over\n--', b'\n[ID]\n\n\n\n',
+              b'\n[ID]\nx\n[TestGhost - 7]\nresidue\n', b'\n[ID]\n/-/-/-/\n', b'[ID]\nno blank line before the header',
+              b'\n[ID]\n' + b'long unterminated body line %d\n' * 3 % (1, 2, 3)]
+JUNK_ENDS = [b'\n\n\n', b'garbage without header\n', b'\n<<<<<<< HEAD\n', b'\n[Test - ', b'\n[note]\ntext\n', b' ']
+
+
+def big_calls(g, cfgno, target, shape):
+    """calls of ONE test whose prepared entries add up to about `target` bytes.  shape: 'lines' = many
+    entries with multi-line bodies of short lines (entries straddle every buffer boundary of a reader
+    that works through a 4 KiB window), 'mixed' = line lengths from 0 to 300, 'few' = a few entries
+    of several KiB each"""
+    r = g.r
+    calls, size, k = [], 0, 0
+    while size < target:
+        k += 1
+        if shape == 'few':
+            nl = r.randint(60, 200)
+        else:
+            nl = r.choice([2, 3, 5, 8, 13, 21])
+        if shape == 'mixed':
+            ls = [b'%d.%d ' % (k, j) + bytes([97 + (k + j) % 26]) * r.choice([0, 1, 7, 30, 64, 120, 300]) for j in range(nl)]
+        else:
+            ls = [b'entry %d line %d %s' % (k, j, bytes([97 + (k * 7 + j) % 26]) * ((k * 3 + j * 5) % 37)) for j in range(nl)]
+        if r.random() < 0.2:
+            ls.insert(r.randint(0, len(ls)), r.choice([b'', b'---', b'--- x', b'[TestNope - 1]', b'/-/-/-/']))
+        v = b'\n'.join(ls)
+        calls.append((cfgno, v))
+        size += len(v) + 30
+    return calls
+
+
 def make_spec(g, allow=()):
     r = g.r
     names = g.names(r.randint(1, 4), allow)
@@ -58,8 +144,11 @@ def make_spec(g, allow=()):
     r.shuffle(stale_names)
     # the Dir option as the user wrote it: not always in shortest form
     sd = r.choice(['snaps', 'snaps', 'snaps/', './snaps', 'snaps/.', 'x/../snaps', '.snapshots', 'my.snap.d'])
-    files = [(sd, None, None), (r.choice(['snaps', sd]), 'custom', None), (r.choice(['other/dir', 'other//dir/']), None, '.txt')]
-    nfiles = r.choice([1, 1, 2, 3])
+    if r.random() < 0.3:
+        sd = r.choice(ODD_DIRS)
+    files = [(sd, None, None), (r.choice(['snaps', sd, sd]), r.choice(['custom', 'custom', 'custom'] + SNAPPY_NAMES), None),
+             (r.choice(['other/dir', 'other//dir/', 'other/' + r.choice(ODD_DIRS)]), None, '.txt')]
+    nfiles = r.choice([2, 2, 3]) if 'ends' in allow else r.choice([1, 1, 2, 3])
     cfgs = [cfg_line(i + 1, *files[i]) for i in range(nfiles)]
     tests = []
     for n in names:
@@ -73,6 +162,12 @@ def make_spec(g, allow=()):
                 v = v + b'\n[TestNope - 1]\n---\n[TestNope - 2]'
             calls.append((cfgno, v))
         tests.append((n, calls))
+    if 'big' in allow:
+        # one test owns a file that is larger than the 4 KiB window Clean's scanner reads through
+        # (just above 4 KiB, 8 KiB, 20 KiB; 64 KiB+ in the thorough tier): many multi-line entries
+        n, calls = tests[r.randrange(len(tests))]
+        calls += big_calls(g, r.randint(1, nfiles), r.choice([4200, 4200, 8300, 8300, 20000] + ([70000, 140000] if 'huge' in allow else [])),
+                           r.choice(['lines', 'lines', 'mixed', 'few']))
     stale = []
     for sn in stale_names[:r.choice([0, 0, 1, 2, 3])]:
         body = g.body((), ())
@@ -138,12 +233,30 @@ def make_spec(g, allow=()):
             running = [(o, oc) for o, oc in tests if o != n and o not in skipped]
             if all(any(c2 == c for _, oc in running for c2, _ in oc) for c in set(c for c, _ in calls)):
                 skipped.append(n)
-    return dict(cfgs=cfgs, nfiles=nfiles, tests=tests, stale=stale, skipped=skipped,
+    # files that END badly (see END_SHAPES).  The unterminated entry at the end belongs to a test that
+    # is gone (Clean reports it; outside the deleting modes it reads its lines like any kept entry's)
+    # or to a test that called snaps.Skip (protected in every mode); or the end is junk without header.
+    ends = []
+    if r.random() < (0.6 if 'ends' in allow else 0.2):
+        gone = [n for n in [b'TestUnfinished', b'TestA/x/cut', b'TestZ9'] if n not in names]
+        for cfgno in range(1, nfiles + 1):
+            if r.random() < 0.6:
+                k = r.random()
+                if k < 0.2:
+                    ends.append((cfgno, 'junk', None, r.choice(JUNK_ENDS)))
+                elif k < 0.5 and any(s_ for s_ in skipped if any(c == cfgno for c, _ in dict(tests)[s_])):
+                    owner = r.choice([s_ for s_ in skipped if any(c == cfgno for c, _ in dict(tests)[s_])])
+                    sid = owner + b' - ' + str(sum(1 for c, _ in dict(tests)[owner] if c == cfgno) + r.choice([1, 1, 6])).encode()
+                    ends.append((cfgno, 'skip', sid, r.choice(END_SHAPES).replace(b'ID', sid)))
+                elif gone:
+                    sid = r.choice(gone) + b' - ' + str(r.choice([1, 2, 10])).encode()
+                    ends.append((cfgno, 'stale', sid, r.choice(END_SHAPES).replace(b'ID', sid)))
+    return dict(cfgs=cfgs, nfiles=nfiles, tests=tests, stale=stale, skipped=skipped, ends=ends,
                 count=r.choice([1, 1, 2, 3]), shuffle=r.randrange(1 << 30),
                 stale_files=r.sample(['old_test.snap', 'x.snapshot', 'gone_1.snap', 'a.snap.json'], r.choice([0, 0, 1, 2])),
                 decoys=r.random() < 0.6,
                 mode=r.choice([(False, ''), (False, 'clean'), (False, 'true'), (True, 'clean'), (False, 'other')]),
-                sort=r.choice(['-', '0', '1', '1']), flags=set())
+                sort=r.choice(['-', '1', '1', '1'] if ('ends' in allow or 'big' in allow) else ['-', '0', '1', '1']), flags=set())
 
 
 def suffix_of(cfgline):
@@ -176,6 +289,13 @@ def layout(spec):
             else:
                 per[cfgno].append((sid, esc(body), False))
     for cfgno in per:
+        forced = (spec.get('order') or {}).get(cfgno)
+        if forced:
+            per[cfgno].sort(key=lambda e: natural_key(e[0]), reverse=(forced == 'reverse'))
+            if forced == 'stale-first':
+                per[cfgno].sort(key=lambda e: e[2])
+            per[cfgno] += tails.get(cfgno, [])
+            continue
         if spec.get('shuffle') == 4 and len(per[cfgno]) > 60:
             # the deterministic big file: stale entries at positions 1 and 40
             live_ = [e for e in per[cfgno] if e[2]]
@@ -200,9 +320,12 @@ def render(tag, spec, oracles):
     for c in spec['cfgs']:
         w.add(c)
     per = layout(spec)
+    ends = {c: (kind, sid, raw) for c, kind, sid, raw in spec.get('ends', ())}
     for cfgno, entries in per.items():
         if entries:
-            w.add('fsput %s %s' % (hx(suffix_of(spec['cfgs'][cfgno - 1])), hx(b''.join(frame(i, b) for i, b, _ in entries))))
+            w.add('fsput %s %s' % (hx(suffix_of(spec['cfgs'][cfgno - 1])),
+                                   hx(b''.join(frame(i, b) for i, b, _ in entries) + (ends[cfgno][2] if cfgno in ends else b''))))
+    w.meta['ends'] = {c: e for c, e in ends.items() if per.get(c)}
     alldirs = sorted(set(suffix_of(c).rsplit('/', 1)[0] for cfgno, c in enumerate(spec['cfgs'], 1) if per[cfgno]))
     # directories Clean visits: those of files some call addresses
     dirs = sorted(set(suffix_of(c).rsplit('/', 1)[0] for cfgno, c in enumerate(spec['cfgs'], 1)
@@ -217,6 +340,13 @@ def render(tag, spec, oracles):
         w.add('fsput %s %s' % (hx(dirs[0] + '/notes.txt'), hx(b'keep me')))
         w.add('fsput %s %s' % (hx(dirs[0] + '/sub/inner.snap'), hx(frame(b'TestInner - 1', b'i'))))
         w.add('fsput %s %s' % (hx('unvisited/lonely.snap'), hx(frame(b'TestLonely - 1', b'l'))))
+        # a directory that a visited directory's path, misread as a PATTERN, would match: nobody addressed
+        # it, so it is not visited
+        for d in dirs:
+            sib = glob_sibling(d)
+            if sib and sib not in alldirs:
+                w.add('fsput %s %s' % (hx(sib + '/zz_verif_harness_test.snap'), hx(frame(b'TestSibling - 1', b's'))))
+                w.add('fsput %s %s' % (hx(sib + '/sibling_test.snap'), hx(frame(b'TestSibling - 1', b's'))))
     texec = 0
     for rep in range(spec['count']):
         for n, calls in spec['tests']:
@@ -250,10 +380,46 @@ def render(tag, spec, oracles):
     return w
 
 
+def parse_snap_prefix(content):
+    """the longest well-formed prefix of a file as [(id, body)], and the bytes that follow it"""
+    ls = content.split(b'\n')
+    out, i, off = [], 0, 0
+    while i + 1 < len(ls):
+        hdr = ls[i + 1]
+        if ls[i] != b'' or not (hdr.startswith(b'[') and hdr.endswith(b']')):
+            break
+        j = i + 2
+        while j < len(ls) and ls[j] != b'---':
+            j += 1
+        if j >= len(ls) - 1:        # no terminator LINE (a line is followed by a newline)
+            break
+        out.append((hdr[1:-1], b'\n'.join(ls[i + 2:j])))
+        off += sum(len(l) + 1 for l in ls[i:j + 1])
+        i = j + 1
+    return out, content[off:]
+
+
+def entries_in(w, cfgno, content):
+    """entries of a file of the world: files prepared with a bad END (spec['ends']) are read up to
+    where they stop being well formed - the oracles speak about their well-formed entries only, the fate
+    of the unterminated rest is compared with the model's prediction; every other file must be well
+    formed as a whole"""
+    if cfgno in w.meta.get('ends', {}):
+        return parse_snap_prefix(content)[0]
+    return parse_snap(content)
+
+
+def end_id(w, cfgno):
+    """id of the unterminated entry a file of the world ends with, if it ends with one"""
+    e = w.meta.get('ends', {}).get(cfgno)
+    return e[1] if e and e[1] is not None else None
+
+
 def file_of(w, cfgno, dump):
     suf = ('/' + suffix_of(w.spec['cfgs'][cfgno - 1])).encode()
     hit = [p for p in dump if p.endswith(suf)]
-    return hit[0] if hit else None
+    # (every path lies under the world's root: the file itself is the shortest path with this suffix)
+    return min(hit, key=len) if hit else None
 
 
 def deletes(spec):
@@ -278,7 +444,7 @@ def o_matched_kept(w):
         p = file_of(w, cfgno, before)
         if p not in after:
             return 'addressed file %r was deleted' % p
-        ea = parse_snap(after[p])
+        ea = entries_in(w, cfgno, after[p])
         if ea is None:
             return 'addressed file %r is not well formed after Clean' % p
         da = dict(ea)
@@ -304,7 +470,7 @@ def o_stale_reported(w):
         p = file_of(w, cfgno, before)
         if p is None or not any(live for _, _, live in entries):
             continue        # a file no call addressed is a stale *file* (checked below)
-        ea = parse_snap(after.get(p, b''))
+        ea = entries_in(w, cfgno, after.get(p, b''))
         ids_after = [e[0] for e in (ea or [])]
         for tid, body, live in entries:
             if not live:
@@ -316,14 +482,23 @@ def o_stale_reported(w):
                     return 'stale entry [%s] removed although the mode does not allow deletion' % tid.decode()
     import re as _re
     stale_ids = set(t for es in w.meta['per'].values() for t, _, l in es if not l)
+    # an unterminated last entry of a test that is gone may be listed too
+    stale_ids |= set(sid for c, (kind, sid, _) in w.meta.get('ends', {}).items() if kind == 'stale')
     listed = [m.group(1) for m in _re.finditer(rb'\xe2\x80\xa2 (Test[^\n]* - \d+)\n', out)]
     extra = [t for t in listed if t not in stale_ids]
     if extra:
         return 'the summary lists %r as obsolete, which is not a stale entry of any file' % extra[:3]
+    # the world's root directory (every path of the dump lies under it)
+    root = None
+    for c in w.meta['per']:
+        fp = file_of(w, c, before)
+        if fp:
+            root = fp[:-len(('/' + suffix_of(spec['cfgs'][c - 1])).encode())]
+            break
     for p in before:
         base = p.rsplit(b'/', 1)[1]
         d = p.rsplit(b'/', 1)[0]
-        visited = any(d.endswith(('/' + x).encode()) for x in w.meta['dirs'])
+        visited = any(d == root + ('/' + x).encode() for x in w.meta['dirs']) if root is not None else False
         addressed = any(file_of(w, c, before) == p for c in w.meta['per'] if any(l for _, _, l in w.meta['per'][c]))
         if addressed:
             continue
@@ -348,7 +523,7 @@ def o_rewrite_preserves(w):
         p = file_of(w, cfgno, before)
         if p is None or p not in after or not any(live for _, _, live in entries):
             continue
-        eb, ea = parse_snap(before[p]), parse_snap(after[p])
+        eb, ea = entries_in(w, cfgno, before[p]), entries_in(w, cfgno, after[p])
         if ea is None:
             return 'file %r not well formed after Clean' % p
         want = [e for e in eb if not (dele and e[0] in [t for t, _, live in entries if not live])]
@@ -357,7 +532,7 @@ def o_rewrite_preserves(w):
             return 'entries of %r changed: before %r after %r' % (p, [e[0] for e in eb], [e[0] for e in ea])
         if len(set(e[0] for e in ea)) != len(ea):
             return 'duplicate entries after Clean'
-        if srt and not nat_total([e[0] for e in eb]):
+        if srt and not nat_total([e[0] for e in eb] + ([end_id(w, cfgno)] if end_id(w, cfgno) else [])):
             continue        # the ORDER clauses only speak about ids on which the natural order is total
         if srt and nat_total([e[0] for e in ea]):
             ids = [e[0] for e in ea]
@@ -366,22 +541,23 @@ def o_rewrite_preserves(w):
                 return 'not in natural order after sorting: %r' % ids
         elif [e[0] for e in ea] != [e[0] for e in want]:
             return 'order changed without sorting: %r -> %r' % ([e[0] for e in want], [e[0] for e in ea])
-        if ea == eb and after[p] != before[p]:
+        if ea == eb and after[p] != before[p] and cfgno not in w.meta.get('ends', {}):
             return 'file needing neither pruning nor sorting was rewritten'
     l1 = Line(w.impl[w.meta['clean']])
     for cfgno, entries in w.meta['per'].items():
         p = file_of(w, cfgno, before)
         if p is None or p not in after or not any(live for _, _, live in entries):
             continue
-        eb = parse_snap(before[p])
-        ids = [e[0] for e in eb]
-        has_stale = any(not live for _, _, live in entries)
+        eb = entries_in(w, cfgno, before[p])
+        # (Clean decides on every header it recognises, the one of an unterminated last entry included)
+        ids = [e[0] for e in eb] + ([end_id(w, cfgno)] if end_id(w, cfgno) else [])
+        has_stale = any(not live for _, _, live in entries) or (cfgno in w.meta.get('ends', {}) and w.meta['ends'][cfgno][0] == 'stale')
         import functools
         already = (not nat_total(ids)) or ids == sorted(ids, key=functools.cmp_to_key(lambda x, y: -1 if nat_less(x, y) else (1 if nat_less(y, x) else 0)))
         if not (dele and has_stale) and (not srt or already) and nat_total(ids) and p in l1.writes:
             return 'file %r needed neither pruning nor sorting but was written' % p
     l2 = Line(w.impl[w.meta['clean2']])
-    all_total = all(nat_total([e[0] for e in (parse_snap(before[file_of(w, c, before)]) or [])])
+    all_total = all(nat_total([e[0] for e in (entries_in(w, c, before[file_of(w, c, before)]) or [])] + ([end_id(w, c)] if end_id(w, c) else []))
                     for c, es in w.meta['per'].items() if file_of(w, c, before) and any(l for _, _, l in es))
     if (all_total or not srt) and (l2.writes or l2.removed or after2 != after):
         return 'a second Clean changed something: w=%r d=%r' % (l2.writes, l2.removed)
@@ -389,12 +565,89 @@ def o_rewrite_preserves(w):
 
 
 def big_clean_spec(g, mode=(False, ''), sort='-'):
-    """a used snapshot file of about 12 KiB: 80 entries of one test, an obsolete entry near the top,
+    """a used snapshot file of about 11 KiB: 80 entries of one test, an obsolete entry near the top,
     another one in the middle (ids must survive the scanner's buffer refills)"""
-    calls = [(1, b'value %03d %s' % (k, b'v' * (90 + k % 11))) for k in range(80)]
+    # (bodies of one to four lines: an entry's lines lie on both sides of a refill of the scanner's window)
+    calls = [(1, b'\n'.join(b'value %03d.%d %s' % (k, j, b'v' * ((90 + k % 11) // (1 + k % 4))) for j in range(1 + k % 4))) for k in range(80)]
     stale = [(1, b'TestGoneEarly/sub - 1', b'old early'), (1, b'TestGoneMiddle - 3', b'old middle\nsecond line')]
     return dict(cfgs=[cfg_line(1, 'snaps')], nfiles=1, tests=[(b'TestBigClean', calls)], stale=stale, count=1, shuffle=4,
                 stale_files=[], decoys=False, mode=mode, sort=sort, flags=set())
+
+
+def big_specs(g, tier):
+    """Used files LARGER than the 4096-byte window Clean's scanner reads through, with multi-line
+    bodies, that Clean really REWRITES (reverse order + Sort, or obsolete entries + clean mode): just
+    above 4 KiB (one refill), 8 KiB, 20 KiB, 64 KiB+; many small entries, mixed line lengths, few
+    entries of several KiB.  Every entry straddling a window boundary must come back unchanged."""
+    out = []
+    sizes = [(4200, 'lines'), (8300, 'mixed'), (20000, 'lines'), (9000, 'few'), (70000, 'lines')]
+    if tier != 'quick':
+        sizes += [(4200, 'mixed'), (4200, 'few'), (8300, 'lines'), (70000, 'mixed'), (140000, 'few'), (300000, 'lines')]
+    for k, (target, shape) in enumerate(sizes):
+        for mode, srt, order in (((False, ''), '1', 'reverse'), ((False, 'clean'), '0', 'stale-first'), ((False, 'clean'), '1', 'reverse')):
+            if target >= 70000 and tier == 'quick' and mode != (False, ''):
+                continue
+            calls = big_calls(g, 1, target, shape)
+            stale = [(1, b'TestGoneEarly/sub - 1', b'old early'), (1, b'TestGoneMiddle - 3', b'old middle\nsecond line\n\nfourth')]
+            tests = [(b'TestBigClean', calls), (b'TestSmall', [(1, b'small one'), (1, b'small two\nline')])]
+            out.append(dict(cfgs=[cfg_line(1, 'snaps')], nfiles=1, tests=tests, stale=stale, count=1, shuffle=5 + k, order={1: order},
+                            stale_files=[], decoys=False, mode=mode, sort=srt, flags=set()))
+    return out
+
+
+def ends_specs():
+    """Two or three used files, the EARLIER ones (in the order Clean examines them) ending in an entry
+    without terminator that Clean keeps reading (a gone test's outside the deleting modes, a skipped
+    test's in every mode), a LATER one that Clean rewrites (unsorted + Sort, or obsolete entry + clean
+    mode): what was read from one file must never show up in another."""
+    out = []
+    for vi, (mode, srt) in enumerate([((False, ''), '1'), ((False, 'clean'), '-'), ((False, 'clean'), '1'), ((False, 'true'), '0'),
+                                      ((True, ''), '1'), ((False, ''), '-')]):
+        for shape_i in (0, 1, 4, 9):
+            for layout_i in range(3):
+                # layout 0: custom.snap (examined first) ends badly, the default file is rewritten;
+                # layout 1: both end badly; layout 2: three files in two directories
+                cfgs = [cfg_line(1, 'snaps'), cfg_line(2, 'snaps', 'custom'), cfg_line(3, 'other/dir', None, '.txt')]
+                nfiles = 3 if layout_i == 2 else 2
+                tests = [(b'TestA', [(2, b'a in custom'), (1, b'a in main\nsecond'), (1, b'a2 in main')]),
+                         (b'TestB', [(1, b'b in main'), (2, b'b in custom')]),
+                         (b'TestKept', [(2, b'kept in custom')] + ([(1, b'kept in main')] if layout_i == 1 else []))]
+                if nfiles == 3:
+                    tests[0][1].append((3, b'a in last'))
+                    tests[1][1].append((3, b'b in last'))
+                stale = [(1, b'TestGone - 1', b'stale main'), (3, b'TestGone - 2', b'stale last')][:nfiles - 1]
+                if deletes(dict(mode=mode)):
+                    kind, sid = 'skip', b'TestKept - 2'
+                else:
+                    kind, sid = 'stale', b'TestUnfinished - 1'
+                ends = [(2, kind, sid, END_SHAPES[shape_i].replace(b'ID', sid))]
+                if layout_i == 1:
+                    ends.append((1, kind, sid, END_SHAPES[(shape_i + 2) % len(END_SHAPES)].replace(b'ID', sid)))
+                out.append(dict(cfgs=cfgs[:nfiles], nfiles=nfiles, tests=tests, stale=stale, skipped=[b'TestKept'], ends=ends,
+                                count=1, shuffle=11 + vi, order={1: 'reverse', 2: 'sorted', 3: 'reverse'},
+                                stale_files=[], decoys=False, mode=mode, sort=srt, flags=set()))
+    return out
+
+
+def odd_dir_specs(g):
+    """one world per unusual directory name (ODD_DIRS): stale entries in the addressed file, a stale
+    file and a stale custom-extension file beside it, decoys (and the directory a pattern-reading of the
+    name would match), report mode and clean mode"""
+    out = []
+    for k, d in enumerate(ODD_DIRS):
+        mode = [(False, ''), (False, 'clean')][k % 2]
+        tests = [(b'TestA', [(1, b'a one'), (1, b'a two\nlines')]), (b'TestB/sub', [(1, b'b')])]
+        stale = [(1, b'TestGone - 1', b'stale'), (1, b'TestA - 3', b'stale ordinal')]
+        out.append(dict(cfgs=[cfg_line(1, d)], nfiles=1, tests=tests, stale=stale, count=1, shuffle=21 + k,
+                        stale_files=['old_test.snap', 'a.snap.json'], decoys=True, mode=mode, sort=['-', '1'][k % 3 == 0], flags=set()))
+    return out
+
+
+def extra_worlds(prefix, g, tier, oracles):
+    ws = [render('%s-big2-%d' % (prefix, k), sp, oracles) for k, sp in enumerate(big_specs(g, tier))]
+    ws += [render('%s-ends-%d' % (prefix, k), sp, oracles) for k, sp in enumerate(ends_specs())]
+    ws += [render('%s-dir-%d' % (prefix, k), sp, oracles) for k, sp in enumerate(odd_dir_specs(g))]
+    return ws
 
 
 def tie_specs():
